@@ -225,10 +225,15 @@ pub fn product_vs_reference(
     stats: &mut ProductStats,
 ) -> Option<Mismatch> {
     let nb = blocks.reps.len();
-    // per pattern, per block: atom membership
-    let am: Vec<Vec<Vec<bool>>> = patterns.iter().map(|(r, _)| (0..nb).map(|b| r.atoms.iter().map(|a| a.has(blocks.reps[b], t)).collect()).collect()).collect();
-    type St = (Vec<u32>, Vec<Option<Vec<u32>>>);
-    let init: St = (vec![0], vec![None; patterns.len()]);
+    // atom membership of a block representative, per pattern, computed on demand
+    let atom_row = |pi: usize, b: usize| -> Vec<bool> { patterns[pi].0.atoms.iter().map(|a| a.has(blocks.reps[b], t)).collect() };
+    // Reference state: `None` = nothing read yet (every pattern in its initial state), otherwise
+    // the sorted list of patterns that are still alive with their position sets. Dead patterns
+    // (empty position set) can never accept again and are dropped, which keeps the product small
+    // for sets of thousands of patterns.
+    type RefSt = Option<Vec<(u32, Vec<u32>)>>;
+    type St = (Vec<u32>, RefSt);
+    let init: St = (vec![0], None);
     let mut index: HashMap<St, u32> = HashMap::new();
     let mut states: Vec<St> = vec![init.clone()];
     let mut parents: Vec<(u32, u16)> = vec![(0, 0)];
@@ -241,21 +246,40 @@ pub fn product_vs_reference(
         for b in 0..nb {
             stats.transitions += 1;
             impl_step(d, &st.0, cm, b, &mut ni);
-            let nr: Vec<Option<Vec<u32>>> = st.1.iter().enumerate().map(|(pi, s)| Some(glus[pi].step(s.as_deref(), &am[pi][b]))).collect();
+            let mut alive: Vec<(u32, Vec<u32>)> = vec![];
+            match &st.1 {
+                None => {
+                    for (pi, g) in glus.iter().enumerate() {
+                        let nx = g.step(None, &atom_row(pi, b));
+                        if !nx.is_empty() {
+                            alive.push((pi as u32, nx));
+                        }
+                    }
+                }
+                Some(list) => {
+                    for (pi, pos) in list {
+                        let nx = glus[*pi as usize].step(Some(pos), &atom_row(*pi as usize, b));
+                        if !nx.is_empty() {
+                            alive.push((*pi, nx));
+                        }
+                    }
+                }
+            }
             let acc_i = accepted_terminals(d, &ni);
-            let mut acc_r: Vec<u32> = nr.iter().enumerate().filter(|(pi, s)| glus[*pi].accepting(s.as_ref().unwrap())).map(|(pi, _)| patterns[pi].1).collect();
+            let mut acc_r: Vec<u32> = alive.iter().filter(|(pi, s)| glus[*pi as usize].accepting(s)).map(|(pi, _)| patterns[*pi as usize].1).collect();
             acc_r.sort_unstable();
             acc_r.dedup();
             if acc_i != acc_r {
                 let mut w = witness(&parents, head, &blocks.reps);
                 w.push(blocks.reps[b]);
-                result = Some(Mismatch { what: format!("after reading the string the automaton accepts token types {acc_i:?}, the patterns accept {acc_r:?}"), witness: w });
+                let show = |v: &Vec<u32>| if v.len() > 12 { format!("{:?}.. ({} token types)", &v[..12], v.len()) } else { format!("{v:?}") };
+                result = Some(Mismatch { what: format!("after reading the string the automaton accepts token types {}, the patterns accept {}", show(&acc_i), show(&acc_r)), witness: w });
                 break 'bfs;
             }
-            if ni.is_empty() && nr.iter().all(|s| s.as_ref().unwrap().is_empty()) {
+            if ni.is_empty() && alive.is_empty() {
                 continue;
             }
-            let ns: St = (ni.clone(), nr);
+            let ns: St = (ni.clone(), Some(alive));
             if !index.contains_key(&ns) {
                 if states.len() >= PRODUCT_CAP {
                     stats.capped = true;
